@@ -65,6 +65,7 @@ ARRAY = [
     ("$m[None, :]", "(NP.row {m})"),
     ("$a.T", "(NP.T {a})"),
     ("$a.dot($b)", "(NP.dot {a} {b})"),
+    ("np.dot($a, $b)", "(NP.dot {a} {b})"),
     ("$a[$i]", "(NP.getItem {a} {i})"),
 ]
 
@@ -94,7 +95,7 @@ STATS_CALLS = [
 
 
 def R(expr=(), **kw):
-    return N.RulesNP(expr=list(expr) + GRAPH + ARRAY, strings=STRINGS, **kw)
+    return N.RulesNP(expr=list(expr) + GRAPH + ARRAY, strings=STRINGS, binop={ast.MatMult: "(NP.dot {a} {b})"}, **kw)
 
 
 SPARSE_EXPR = [
@@ -193,12 +194,14 @@ def _functions():
         ("np.vstack(($a, $b))", "(NP.vstack {a} {b})"),
         ("np.hstack(($a, $b))", "(NP.hstack {a} {b})"),
         ("$x ** 2", "(NP.sq {x})"),
-        # machine epsilon of the least precise floating point operand: the model is exact arithmetic and carries no
-        # dtypes, so this number is a parameter of the environment (`lib.precision`, contract: >= 0)
-        ("max([np.finfo(np.float64).eps] + [np.finfo(a.dtype).eps for a in ($x, $y, $z) "
-         "if np.issubdtype(a.dtype, np.inexact)])", "lib.precision"),
+        # dtypes: the model is exact arithmetic and carries none; what numpy says of them is a parameter (`lib`)
+        ("np.finfo($t).eps", "(lib.eps {t})"),
+        ("np.float64", "lib.float64"),
+        ("np.issubdtype($t, np.inexact)", "(lib.inexact {t})"),
+        ("$x.dtype", "(NP.dtypeIn lib {x})"),
         ("max($x.shape)", "(NP.maxShape {x})"),
         ("max($a, $b)", "(max {a} {b})"),
+        ("max($l)", "(NP.maxList {l})"),
         ("$l.max()", "(NP.vmax {l})"),
         ("$l[$l > $e]", "(NP.filterGt {l} {e})"),
         ("len($l)", "(NP.len {l})"),
